@@ -314,6 +314,11 @@ func (e *errWriter) Write(p []byte) (int, error) {
 		return 0, e.err
 	}
 	n, err := e.w.Write(p)
+	if err == nil && n < len(p) {
+		// a writer that takes less than it was given without saying why (io.Copy and
+		// bytes.Buffer.WriteTo report the same on the buffered entry points)
+		err = io.ErrShortWrite
+	}
 	if err != nil {
 		e.err = err
 	}
